@@ -24,7 +24,7 @@ MINIMA = {'chunked_executions_compared': 60000, 'error_case_strings': 300, 'noer
 
 
 def n_cases(tier):
-    return 2400 if tier == 'quick' else 150000
+    return 2400 if tier == 'quick' else 30000
 
 
 def prepare(rng, e_client, prep):
